@@ -21,7 +21,7 @@ import (
 
 func init() {
 	vf.Register(&vf.CheckDef{ID: "C20", Level: "model_checking", Run: run,
-		Workers: map[string]vf.WorkerFunc{"hist": histWorker, "real": realWorker}})
+		Workers: map[string]vf.WorkerFunc{"hist": histWorker, "real": realWorker, "split": splitWorker}})
 }
 
 // ---------------------------------------------------------------- formats: independent single-document parsers
@@ -640,6 +640,7 @@ func run(c *vf.Ctx) {
 		c.RunPool(vf.PoolSpec{Worker: "hist", Bin: x.bin, Args: x.a, Shards: x.shards, StallSecs: 600})
 	}
 	c.RunPool(vf.PoolSpec{Worker: "real", Shards: 32, StallSecs: 900})
+	c.RunPool(vf.PoolSpec{Worker: "split", Shards: 32, StallSecs: 900})
 	c.TracesValidated = c.Evaluations
 	c.Extra["bounds"] = map[string]any{"capacity2": map[string]int{"targets": T2, "maxlen": L2}, "capacity3": map[string]int{"targets": T3, "maxlen": L3}}
 }
